@@ -114,7 +114,7 @@ def _assign_case(seed):
     isoforms = H.make_gene(rng, 1 if single else None)
     gi = H.gene_info_of(isoforms, params.delta)
     tid, strand, exons = rng.choice(isoforms)
-    kind = rng.choice(["exact", "truncated", "jitter", "intron_retention", "skipped_exon", "novel_exon"])
+    kind = rng.choice(["exact", "truncated", "jitter", "intron_retention", "skipped_exon", "novel_exon", "partial_intron_retention"])
     if kind == "skipped_exon":
         big = [i for i in range(1, len(exons) - 1) if exons[i][1] - exons[i][0] >= 150]
         if not big:
@@ -122,7 +122,7 @@ def _assign_case(seed):
         read = exons[:big[0]] + exons[big[0] + 1:]
     else:
         read = H.derive_read(rng, exons, kind, params.delta if matching != "exact" else 0)
-    if read is None or len(read) < 2 and kind != "truncated":
+    if read is None or len(read) < 2 and kind not in ("truncated", "partial_intron_retention"):
         return None, []
     if kind == "truncated" and len(read) < 2:
         return None, []
@@ -155,7 +155,7 @@ def replay_assign(d):
 @bounded("C01.assigner_end_to_end", ["C01"], note="random genes (1-3 isoforms over a shared exon pool) and reads derived from an isoform: "
          "exact, truncated at either end, junctions jittered within delta -> the real LongReadAssigner must report a consistent type, the "
          "isoform among the matches when the read is full-length, and a unique assignment when it is the only isoform; reads with a "
-         "retained intron (>= 300 bp), a skipped exon (>= 150 bp) or an extra exon relative to the only isoform must never be consistent; "
+         "retained intron (>= 300 bp), >= 100 intronic bases retained at a read end, a skipped exon (>= 150 bp) or an extra exon relative to the only isoform must never be consistent; "
          "all four matching presets")
 def c01_e2e(tier, rng):
     n = 1500 if tier == "quick" else 60000
